@@ -62,6 +62,9 @@ example :
       [[⟨[97], 5, true, [1]⟩, ⟨[99], 2, true, [3]⟩], [⟨[97], 7, false, []⟩, ⟨[98], 1, true, [2]⟩]]
     (children.flatten.map Entry.key).Nodup ∧ (∀ c ∈ children, sortedE c = true) ∧
     visible 6 (merged children) none = [([97], [1]), ([98], [2]), ([99], [3])] ∧
-    visible 9 (merged children) none = [([98], [2]), ([99], [3])] := by decide
+    visible 9 (merged children) none = [([98], [2]), ([99], [3])] := by
+  -- plain `decide` is stuck on `mergeTwo` (well-founded recursion does not unfold in the elaborator's
+  -- reduction); the kernel evaluates it.  No axiom is added by `+kernel`.
+  decide +kernel
 
 end Rain.DbIter
